@@ -331,6 +331,23 @@ def run_calc(c):
   for k in range(-5, 8):
     if p[k] != P.get(k, 0):
       raise Violation("p[%d] = %r, expected %r" % (k, p[k], P.get(k, 0)))
+  # a Poly owns its terms: the mapping it was built from, a second Poly built from the same
+  # mapping, and p.diff(0) are all independent of it
+  from collections import OrderedDict
+  od = OrderedDict((k, cc) for k, cc in c["p"])
+  before = list(od.items())
+  pa, pb = Poly(od), Poly(od)
+  if list(od.items()) != before:
+    raise Violation("Poly(mapping) modified the caller's mapping: %r -> %r" % (before, list(od.items())))
+  pb[17] = Q(5)
+  od[18] = Q(0)
+  od[19] = Q(3)
+  d0 = pa.diff(0)
+  d0[21] = Q(7)
+  check(pa, P, "a Poly after its source mapping, its twin and its diff(0) were modified")
+  P21 = dict(P)
+  P21[21] = F(7)
+  check(d0, P21, "p.diff(0) with one more term")
   return {"nontrivial": len(P) >= 2 and len(Qm) >= 2, "labels": labels}
 
 
@@ -436,7 +453,41 @@ def run_lag(c):
   return {"nontrivial": len(pts) >= 2, "labels": ["%d points" % len(pts)]}
 
 
+def strat_long(tier):
+  lo = st.sampled_from([0, 0, -5])           # true polynomials twice as often as Laurent ones
+  big = lo.flatmap(lambda a: st.lists(st.tuples(st.integers(a, 60), fr_s), min_size=34, max_size=46,
+                                      unique_by=lambda t: t[0]))
+  return st.fixed_dictionaries(dict(p=big, q=st.sampled_from([0, 0, 1]).flatmap(lambda k: terms() if k else big),
+                                    v=fr.filter(lambda t: t != 0),
+                                    routes=st.tuples(st.sampled_from(ROUTES), st.sampled_from(ROUTES))))
+
+
+def run_long(c):
+  """Polynomials with dozens of terms (beyond any small-size fast path) obey the same exact arithmetic."""
+  P, Qm = model(c["p"]), model(c["q"])
+  # plain Fractions here, not Q: a float zero used as accumulator or filler would be absorbed
+  # exactly by Q, while a plain Fraction degrades to float on contact with it
+  plain = lambda tl: [(k, F(cc)) for k, cc in tl]
+  p, q = build(plain(c["p"]), c["routes"][0]), build(plain(c["q"]), c["routes"][1])
+  for r in (p * q, p + q):
+    if any(isinstance(cc, float) for _, cc in r.terms()):
+      raise Violation("a float coefficient appeared in the product / sum of polynomials with Fraction coefficients")
+  check(p * q, m_mul(P, Qm), "p*q (%d x %d terms)" % (len(P), len(Qm)))
+  check(q * p, m_mul(P, Qm), "q*p")
+  check(p + q, m_add(P, Qm), "p+q")
+  check(p - q, m_add(P, m_neg(Qm)), "p-q")
+  check(p * p, m_mul(P, P), "p*p")
+  eq(p * (q + p), p * q + p * p, "distributive (long)")
+  v = c["v"]
+  if (p * q)(v) != m_eval(P, v) * m_eval(Qm, v):
+    raise Violation("(p*q)(v) != p(v)*q(v) for long polynomials at %r" % (v,))
+  return {"nontrivial": len(P) >= 33, "labels": ["both long" if len(Qm) >= 33 else "long x short"]}
+
+
 CLAUSES = [
+  Clause("long_polynomials", strat_long, run_long, quick=60, thorough=1200,
+         floors={"both long": .2},
+         doc="products / sums of polynomials with 34..46 terms and non-dyadic rational coefficients stay exact"),
   Clause("ring", strat_ring, run_ring, quick=1800, thorough=40000,
          floors={"negative powers": .2, "cancellation": .02},
          doc="+ - * ** vs independent arithmetic; commutative/associative/distributive; no stored zero"),
